@@ -156,11 +156,16 @@ def main():
         code = mod.run(chk, only=a.only)
     except harness.StopEarly as e:
         code = chk.finish(explanation=f"run stopped early: {e}", rule="see the check's normal evidence for the rule")
-    except Exception:  # noqa
+    except Exception as e:  # noqa
         import traceback
 
         traceback.print_exc()
         print(f"HARNESS-ERROR property={a.pid}")
+        if chk.violations:
+            # violations already reported were reproduced on the real code before being printed: they stand (exit 1); the part of the
+            # check that could not run is recorded as inconclusive in the evidence
+            chk.inconclusive_note(f"harness error after {len(chk.violations)} reported violation(s): {type(e).__name__}: {str(e)[:160]}")
+            sys.exit(chk.finish(explanation="run ended by a harness error after violations had been reported", rule="see the check's normal evidence for the rule"))
         sys.exit(2)
     sys.exit(code)
 
